@@ -23,9 +23,9 @@ func init() {
 		Assumptions: []string{"both instances are built from the same description by the same constructor path"},
 		Cases: func(tier string) int {
 			if tier == "quick" {
-				return 128
+				return 3200
 			}
-			return 1600
+			return 32000
 		},
 		Run:      runC13,
 		Required: []string{"pairs.std", "pairs.fast", "pairs.recurrent", "pairs.modular", "history.ended_in_error", "history.changed_outputs", "evaluate_twice"},
